@@ -29,6 +29,8 @@ C_SHORT_HI = [195.1e12, 194.0e12, 193.05e12, 195.997e12]
 L_LO = [186.55e12, 186.5e12, 186.56e12]
 L_HI = [190.05e12, 190.1e12, 190.04e12]
 L_RED_LO = [187.3e12, 187.0e12, 188.002e12]
+S_LO = [196.5e12, 196.45e12, 196.6e12]
+S_HI = [200.5e12, 200.0e12, 199.05e12]
 
 
 def _vg(name, band, gmin, gmax, nf_min=6, nf_max=10, p_max=21, design=True):
@@ -42,10 +44,11 @@ def _mb(name, parts, design=True):
 
 
 @st.composite
-def band_edges(draw, same_fmax=False):
+def band_edges(draw, same_fmax=False, third_band=False):
     c = (draw(st.sampled_from(C_LO)), draw(st.sampled_from(C_HI)))
     l = (draw(st.sampled_from(L_LO)), draw(st.sampled_from(L_HI)))
-    return {'C': list(c), 'L': list(l),
+    extra = {'S': [draw(st.sampled_from(S_LO)), draw(st.sampled_from(S_HI))]} if third_band else {}
+    return {**extra, 'C': list(c), 'L': list(l),
             'Cred': [draw(st.sampled_from(C_RED_LO)), c[1]],
             'Cred2': [draw(st.sampled_from(C_RED_LO)), c[1]],
             'Cshort': [c[0], c[1] if same_fmax else draw(st.sampled_from(C_SHORT_HI))],
@@ -68,6 +71,12 @@ def library(edges, si_band='C', design_reduced=False, spacing=50e9):
         _mb('MB_Cred', ['Cred_std', 'L_std'], design=False), _mb('MB_Cred_low', ['Cred_low', 'L_low'], design=False),
         _mb('MB_Lred', ['C_std', 'Lred_std'], design=False), _mb('MB_Lred_low', ['C_low', 'Lred_low'], design=False),
     ]
+    if 'S' in edges:
+        # a third band above C (gnpy names it 'unknown_band'); three-band models with their constituents in every order
+        S = edges['S']
+        edfa += [_vg('S_std', S, 15, 26, design=False), _vg('S_low', S, 8, 16, 7, 11, design=False)]
+        for name, parts in MB3_PARTS.items():
+            edfa.append(_mb(name, parts, design=False))
     if si_band == 'C':
         si = [max(C[0], 191.3e12) + 0.05e12, min(C[1], 196.1e12) - 0.05e12]
     else:
@@ -111,8 +120,10 @@ _OP = {'gain_target': None, 'delta_p': None, 'tilt_target': 0, 'out_voa': None}
 
 SINGLE = {'C': ['C_std', 'C_low', 'C_high'], 'Cred': ['Cred_std', 'Cred_low'], 'Cred2': ['Cred2_std', 'Cred2_low'], 'Cshort': ['Cshort_std', 'Cshort_low'],
           'L': ['L_std', 'L_low'], 'Lred': ['Lred_std', 'Lred_low']}
-MULTI = {'CL': ['MB_std', 'MB_low'], 'CLred': ['MB_Cred', 'MB_Cred_low', 'MB_Lred', 'MB_Lred_low']}
-MB_PARTS = {'MB_std': ['C_std', 'L_std'], 'MB_low': ['C_low', 'L_low'], 'MB_high': ['C_high', 'L_high'],
+MULTI = {'CLS': ['MB3_CLS', 'MB3_LCS', 'MB3_SCL', 'MB3_SLC_low', 'MB3_CSL_low'], 'CL': ['MB_std', 'MB_low'], 'CLred': ['MB_Cred', 'MB_Cred_low', 'MB_Lred', 'MB_Lred_low']}
+MB3_PARTS = {'MB3_CLS': ['C_std', 'L_std', 'S_std'], 'MB3_LCS': ['L_std', 'C_std', 'S_std'], 'MB3_SCL': ['S_std', 'C_std', 'L_std'],
+             'MB3_SLC_low': ['S_low', 'L_low', 'C_low'], 'MB3_CSL_low': ['C_low', 'S_low', 'L_low']}
+MB_PARTS = {**MB3_PARTS, 'MB_std': ['C_std', 'L_std'], 'MB_low': ['C_low', 'L_low'], 'MB_high': ['C_high', 'L_high'],
             'MB_Cred': ['Cred_std', 'L_std'], 'MB_Cred_low': ['Cred_low', 'L_low'],
             'MB_Lred': ['C_std', 'Lred_std'], 'MB_Lred_low': ['C_low', 'Lred_low']}
 
@@ -138,6 +149,8 @@ def chain(draw, lid, direction, cls, spans=(1, 3)):
     if cls in ('L', 'Lred', 'Lnodb'):
         # the degree needs a booster: its uid keys the per-degree design band (see band_topology)
         where = draw(st.sampled_from(['booster', 'all']))
+    if cls == 'CLS':
+        where = 'all'      # three-band line fully placed by the user; design only sets gains
     if cls == 'Lnodb':
         cls = 'L'
     if cls == 'CLauto':
@@ -200,6 +213,9 @@ def band_topology(draw, classes, edges=None, n=(2, 4), extra_max=2, both_dirs_sa
                 lo, hi = edges[c]
                 roadms[src]['params'].setdefault('per_degree_design_bands', {})[els[0]['uid']] = [
                     {'f_min': lo + 0.05e12, 'f_max': hi - 0.05e12, 'spacing': 50e9}]
+            if c == 'CLS' and edges is not None:
+                roadms[src]['params'].setdefault('per_degree_design_bands', {})[els[0]['uid']] = [
+                    {'f_min': edges[b][0] + 0.1e12, 'f_max': edges[b][1] - 0.1e12, 'spacing': 50e9} for b in ('L', 'C', 'S')]
             if c == 'CLauto' and edges is not None:
                 roadms[src]['params'].setdefault('per_degree_design_bands', {})[els[0]['uid']] = [
                     {'f_min': edges['L'][0] + 0.1e12, 'f_max': edges['L'][1] - 0.1e12, 'spacing': 50e9},
